@@ -3,7 +3,7 @@
    by vm_compute), universal in the immediates (the check is symbolic; its soundness lemma quantifies over
    all argument values in the range of the parameter types and uses the wrap-around lemmas of Base/Wrap.v). *)
 From Coq Require Import List NArith ZArith Bool String Lia.
-From Orca Require Import Wrap HelperLang HelperSpec GenHelpers.
+From Orca Require Import Util Wrap HelperLang HelperSpec GenHelpers CheckHelpers.
 Import ListNotations.
 
 (* ------------------------------------------------------------------------------------------ *)
@@ -179,7 +179,7 @@ Proof.
     destruct (assoc (fst f) simms) as [s|] eqn:Es; [|discriminate].
     apply andb_true_iff in Hf as [Hty Hm].
     destruct (imm_sound _ _ _ _ Hok Hm) as (v & Ev & Sv).
-    exists (v :: vs). cbn [map_opt]. unfold run_field, spec_field. rewrite Eg, Es, Hty, Ev, Sv, E1, E2. auto.
+    exists (v :: vs). cbn [map_opt]. rewrite E1, E2. unfold run_field, spec_field. rewrite Eg, Es, Hty, Ev, Sv. auto.
 Qed.
 
 Lemma inj_sound tbl ptys args inj s :
@@ -242,12 +242,6 @@ Qed.
 
 Definition helper_names : list string := map h_name helpers.
 Definition spec_names : list string := map sp_name spec.
-
-Definition mem_str (x : string) (l : list string) : bool := existsb (String.eqb x) l.
-Fixpoint nodupb (l : list string) : bool :=
-  match l with [] => true | x :: l' => negb (mem_str x l') && nodupb l' end.
-Definition same_names (a b : list string) : bool :=
-  nodupb a && nodupb b && forallb (fun n => mem_str n b) a && forallb (fun n => mem_str n a) b.
 
 Lemma mem_str_In x l : mem_str x l = true <-> In x l.
 Proof.
@@ -381,4 +375,17 @@ Proof.
   rewrite (spec_run_f64 v sp Hl) in Hs.
   destruct (code_of "f64_const") as [c|] eqn:Hc; [|discriminate]. inversion Hs; subst ops.
   exists h, c. auto.
+Qed.
+
+(* ------------------------------------------------------------------------------------------ *)
+(* the correspondence checker is sound: a case on which the real helper was observed to do what the
+   translated body says, with arguments in range, satisfies the specification                    *)
+Theorem checker24_sound : forall names ok c,
+  agree names ok c = true -> in_domain names c = true -> holds names c = true.
+Proof.
+  intros names ok c Ha Hd. unfold agree in Ha. apply andb_true_iff in Ha as [_ Ha].
+  unfold in_domain in Hd. unfold holds, spec_obs.
+  destruct (find_helper helpers (case_name names c)) as [h|] eqn:Hf; [|discriminate].
+  destruct (helper_by_name_exact _ _ Hf _ Hd) as (sp & ops & Hl & _ & Hr & Hs).
+  rewrite Hl, Hs. unfold model_obs in Ha. rewrite Hr in Ha. exact Ha.
 Qed.
